@@ -15,6 +15,7 @@ REAL = "real code from the /repo working tree"
 PROPERTIES = {}
 NOT_APPLICABLE = {}
 ENGINE_KINDS = {
+    "cli": "gaddlemaps._cli.main() in-process under the random seam vs the library workflow; sort_molecules / --auto with scheduler-chosen file-list and set-iteration orders (set seam on classify_files); the unmodified CLI in real subprocesses under different PYTHONHASHSEED values",
     "pipeline": "System + Manager + ExchangeMap + GroFile writer on generated multi-species worlds (real files, file seam on): life-cycle histories of add_end_molecule / calculate_exchange_maps / align_molecules / extrapolate_system incl. premature extrapolations; output taken from the file seam",
     "routing": "Alignment.align_molecules with the optimiser entry point replaced by a recording stub; Manager.align_molecules with Alignment.align_molecules replaced by a recording stub (real files); restraint guessers by enumeration",
     "system": "System recognition on generated files: scheduler-chosen topology load order with observers between loads and injected failing loads; instance list derived from the file as oracle",
@@ -397,3 +398,31 @@ _reg("C05", engine="pipeline", level="exploration",
      schedule_dimension="order of life-cycle calls; position of premature extrapolations",
      probes=["successful_extrapolation", "small_reference_species", "unmapped_species_skipped", "repeated_extrapolation",
              "overwrote_existing_output"])
+
+
+_reg("C20", engine="cli", level="exploration",
+     runs={"quick": 400, "thorough": 20000}, block=2,
+     budget={"quick": 200, "thorough": 2400},
+     technique="deterministic simulation of the CLI: random seam (same seed, digest comparison) for CLI-vs-library equivalence; set seam (scheduler-chosen iteration order of the discovery sets) and scheduler-chosen candidate order for discovery; real subprocesses under different hash seeds as a cross-check",
+     level_text=("Sampled worlds (1..4 species incl. 1-/2-atom references, solvent, distractor files) plus the shipped BMIM/BF4 box.  "
+                 "Equivalence runs: main() with explicit --mol triples in any order, --scale given or defaulted, -o given or the "
+                 "default mapped_<input> beside the input, against Manager.from_files / add_end_molecule / align_molecules / "
+                 "calculate_exchange_maps(scale) / extrapolate_system under the same seed: byte-identical files and equal "
+                 "random-stream digests.  Discovery runs: the candidate list in scheduler-chosen order, the two classification sets "
+                 "iterating in scheduler-chosen order (every order reachable), species complete / given explicitly (also listed) / "
+                 "missing their end topology, end coordinates or both, excluded species, distractors (other extensions, files of a "
+                 "species absent from the system, the system file itself, a start-resolution coordinate file): sort_molecules must "
+                 "return exactly the complete species' three files for every order, never re-add explicit species, and main must "
+                 "map exactly the complete, non-excluded ones.  The first runs execute the unmodified CLI in real subprocesses "
+                 "under different PYTHONHASHSEED values with shuffled --auto lists."),
+     level_note=("No duplicate topologies of one molecule name and no malformed files are generated (the statement's 'its files' is "
+                 "then undefined).  STEPS_FACTOR is lowered to 1..2 (class attribute) in both workflows alike.  Outputs of two "
+                 "processes are compared only when they added the species in the same order (the order decides which species "
+                 "consumes the random stream first)."),
+     rule="one run = one world + one CLI scenario; non-trivial = scenario completed; distinct = distinct (mode, outcome) signatures",
+     components={"_cli.main / auto_map / sort_molecules": REAL, "_cli.classify_files": REAL + " (results re-wrapped in sets with scheduler-chosen iteration order)",
+                 "Manager / System / Alignment / ExchangeMap / parsers / MC engine": REAL,
+                 "process mode": "real `python -c '...; main()'` subprocesses of the working tree under chosen PYTHONHASHSEED"},
+     schedule_dimension="candidate-list order, set iteration order, hash seed, order of --mol triples",
+     probes=["incomplete_species_among_candidates", "excluded_species", "explicit_plus_auto", "default_output_name", "real_process_runs",
+             "same_species_order_across_hash_seeds"])
